@@ -15,7 +15,7 @@ CORE_TRUSTED = [
 
 SPEC = {
     'C01': dict(manual=[(['tree', 'chan', 'catchall', 'dynh', 'structural', 'prio'], 220), (['chan', 'catchall', 'dynh'], 80)],
-                run=[], patterns=60, kinds={'D', 'I'}, opts=dict(tree=True),
+                run=[], patterns=60, cache_patterns=150, kinds={'D', 'I'}, opts=dict(tree=True),
                 nontrivial=lambda w: len(w.side['expect']) >= 3 and any(op[0] == 'do' and op[2][0] in ('reg', 'unreg', 'addH', 'rmH') for op in w.ops),
                 rule='random forests (<=4 components, channels *, n1, n2, instances; named / catch-all / global handlers; '
                      'dynamic add/removeHandler; register/unregister incl. from handlers) x histories of fires and ticks; '
@@ -73,6 +73,8 @@ def scenarios(ctx, prop):
             out.append(core_gen.gen_scenario(ctx.rng, feats))
     for _ in range(sp.get('patterns', 0) * ctx.scale):
         out.append(core_gen.gen_detach_pattern(ctx.rng))
+    for _ in range(sp.get('cache_patterns', 0) * ctx.scale):
+        out.append(core_gen.gen_cache_pattern(ctx.rng))
     for feats, n in sp['run']:
         for _ in range(max(1, n * ctx.scale // (1 if ctx.scale == 1 else 2))):
             out.append(core_gen.gen_run_scenario(ctx.rng, feats))
